@@ -1404,6 +1404,10 @@ class Process(StateMachine, persistence.Savable, metaclass=ProcessStateMachineMe
                 next_state = self.create_state(process_states.ProcessState.EXCEPTED, *sys.exc_info()[1:])
                 self._set_interrupt_action(None)
 
+            if self._future.cancelled() and self._killing is None and not self.has_terminated():
+                # The future was cancelled and its callback, which kills the process, did not get to run yet
+                self.kill('Killed by future being cancelled')
+
             if self.has_terminated():
                 # Terminated (e.g. by ``fail``) while the step was in flight: there is nothing left to do
                 next_state = None
